@@ -451,12 +451,34 @@ func init() {
 			return &IfaceV{V: &OpaqueV{Kind: "metric", Str: name, ID: ex.freshID()}}
 		}
 	}
+	// GetOrRegister*: the registry's membership is modelled (name -> the object currently registered
+	// under it): a second call returns the same object, Unregister / UnregisterAll on the registry
+	// remove it, and calls on an object that is no longer the registered one are recorded as
+	// "metric:orphan:..." (they are invisible to readers of the registry)
+	gor := func(kind string) Intrinsic {
+		return func(ex *Exec, a []Value) Value {
+			name := kind
+			if len(a) > 0 {
+				if s, ok := a[0].(string); ok {
+					name = kind + ":" + s
+				}
+			}
+			if o, ok := ex.ghost["gmmember:"+name].(*OpaqueV); ok {
+				return &IfaceV{V: o}
+			}
+			o := &OpaqueV{Kind: "metric", Str: name, ID: ex.freshID()}
+			ex.ghost["gmmember:"+name] = o
+			return &IfaceV{V: o}
+		}
+	}
 	I[gmp+"NewRegistry"] = opq("registry")
 	I[gmp+"NewUniformSample"] = opq("sample")
-	I[gmp+"GetOrRegisterHistogram"] = opq("histogram")
-	I[gmp+"GetOrRegisterTimer"] = opq("timer")
-	I[gmp+"GetOrRegisterCounter"] = opq("counter")
-	I[gmp+"GetOrRegisterGaugeFloat64"] = opq("gauge")
+	I[gmp+"GetOrRegisterHistogram"] = gor("histogram")
+	I[gmp+"GetOrRegisterTimer"] = gor("timer")
+	I[gmp+"GetOrRegisterCounter"] = gor("counter")
+	I[gmp+"GetOrRegisterGaugeFloat64"] = gor("gauge")
+	I[gmp+"GetOrRegisterGauge"] = gor("gauge")
+	I[gmp+"GetOrRegisterMeter"] = gor("meter")
 	ddp := "(*github.com/DataDog/datadog-go/v5/statsd.Client)."
 	for _, m := range []string{"Distribution", "TimeInMilliseconds", "Count", "Gauge"} {
 		m := m
@@ -510,9 +532,35 @@ func (ex *Exec) opaqueMethod(o *OpaqueV, name string, args []Value) Value {
 	case "Error", "String":
 		return o.Str
 	}
+	if o.Kind == "metric" && strings.HasPrefix(o.Str, "registry") {
+		switch name {
+		case "Unregister":
+			if n, ok := args[0].(string); ok {
+				for k := range ex.ghost {
+					if strings.HasPrefix(k, "gmmember:") && strings.HasSuffix(k, ":"+n) {
+						delete(ex.ghost, k)
+					}
+				}
+				return nil
+			}
+			panic(unsupported("go-metrics Registry.Unregister with a non-constant name"))
+		case "UnregisterAll":
+			for k := range ex.ghost {
+				if strings.HasPrefix(k, "gmmember:") {
+					delete(ex.ghost, k)
+				}
+			}
+			return nil
+		case "Each", "Get", "GetAll", "GetOrRegister", "Register", "RunHealthchecks":
+			panic(unsupported("go-metrics Registry." + name + " is not modelled"))
+		}
+	}
 	if o.Kind == "metric" {
 		// recording stub of a third-party metric object
 		k := "metric:" + o.Str + "." + name
+		if cur, ok := ex.ghost["gmmember:"+o.Str].(*OpaqueV); (!ok || cur != o) && !strings.HasPrefix(o.Str, "registry") && !strings.HasPrefix(o.Str, "sample") {
+			k = "metric:orphan:" + o.Str + "." + name
+		}
 		n, _ := ex.ghost[k].(int)
 		ex.ghost[k] = n + 1
 		if len(args) > 0 {
